@@ -76,7 +76,7 @@ CHECKS = {
              "derivations below a bound through the phase machine (balanced prefixes, completeness, same pointer "
              "structure in the rendering). Conformance: ~6k (thorough ~45k) derivations are parsed by the real "
              "check_decl, projected, rendered by gen_arg_as_cxx and gen_decl, re-parsed, and judged by TLC; a batch "
-             "is decided by g++ is_same, which ties both Shroud and the specification's rendering to a compiler.",
+             "is decided by g++ is_same, which ties both Shroud and the specification's rendering to a compiler. The C rendering (gen_arg_as_c) of declarations over native types must be the C counterpart (references as pointers, cv-qualifiers kept at every level). Which declaration a (qualified) type name denotes is specified in Symtab.tla (C++ lookup rule in writing order), model-checked, validated against the real symbol tables on generated scope trees and tied to the language by g++ static_assert(is_same).",
         note="Trusted: TLC, the harness text renderer / C lexer / AST projection (field copying), g++ 12. "
              "Renderings of template-instance parameters inside a function rendering are not compared (documented "
              "wrapper convention). Domain limited to the rows in harness/declgen.py.",
@@ -206,7 +206,7 @@ CHECKS = {
              "arguments, functions returning instances) logs what it receives and produces; a C driver compiled as C "
              "against the generated headers calls every entry point with boundary values and logs what it supplies "
              "and gets back; TLC validates every call: right entry point, same values in declaration order, right "
-             "'this', same result and output arguments.",
+             "'this', same result and output arguments. The statement tables every conversion is selected from are specified in StmtTree.tla (expansion of alternatives, base vs mixin, duplicate / forward references refused, lookup by the parts that lead somewhere); TLC checks the design properties and validates the real update_stmt_tree / lookup_stmts_tree on generated tables and on the real fc_statements, py_statements and lua_statements. Libraries also come from the TLA+ grammar LibGen (wide member, sampled members).",
         note="Trusted: TLC, rt/vt.c (single flushed trace channel), the generated driver and subject library, gcc/g++ 12. "
              "Values: 32-bit ints, doubles that are multiples of 1/4, short ASCII strings. C names are read from the "
              "generated headers (their predictability is decided by C08).",
